@@ -178,6 +178,8 @@ class BuiltinMixin:
             h = self.st.heap[a.t]
             if isinstance(h, HSeqList):
                 return VI(z3.Length(h.seq))
+            if getattr(h, 'is_set', False):
+                raise Unsupported('size of a set (multiplicity is not modelled)')
             return VI(len(h.items))
         if a.k == 'dict' and self.st.heap[a.t].sym:
             # number of distinct (symbolic) keys: entry i counts if no later entry has an equal key
@@ -583,7 +585,7 @@ class BuiltinMixin:
             if name == 'get':
                 if args[0].k == 'enumv':
                     args = [self.concrete_member(args[0])] + list(args[1:])
-                kk = key_of(args[0])
+                kk = self.dict_key(h, args[0])
                 if kk in h.d:
                     return h.d[kk]
                 return args[1] if len(args) > 1 else kw.get('default', NONE)
@@ -596,12 +598,12 @@ class BuiltinMixin:
                 h.d.update(self.st.heap[args[0].t].d)
                 return NONE
             if name == 'setdefault':
-                kk = key_of(args[0])
+                kk = self.dict_key(h, args[0])
                 if kk not in h.d:
                     h.d[kk] = args[1] if len(args) > 1 else NONE
                 return h.d[kk]
             if name == 'pop':
-                kk = key_of(args[0])
+                kk = self.dict_key(h, args[0])
                 if kk in h.d:
                     return h.d.pop(kk)
                 if len(args) > 1:
